@@ -55,7 +55,7 @@ def main():
             return None, "no demo"
         dst = os.path.join(scratch, place, "zz_seeded_" + demo)
         shutil.copy(os.path.join(src, demo), dst)
-        rc, o = sh("go test -vet=off -count=1 -run 'Seeded|seeded|Demo' ./%s 2>&1 | tail -30" % place, scratch, timeout=1200)
+        rc, o = sh("go test -vet=off -count=1 -run 'Seed|seed|Demo' ./%s 2>&1 | tail -30" % place, scratch, timeout=1200)
         ok = "ok  " in o and "FAIL" not in o
         os.remove(dst)
         return ok, o[-1500:]
